@@ -72,9 +72,29 @@ def gen_cases(rng, tier):
     N = 250 if tier == "quick" else 6000
     cases = []
     for _ in range(N):
-        p = problems.gen_problem(rng, with_objectives=False)
+        p = problems.gen_problem(rng, with_objectives=False, custom_kinds=problems.C01_CUSTOM)
+        if rng.random() < 0.1:
+            # ill-behaved user heuristic next to a constraint enforced by nucleotide restrictions: the
+            # heuristic rewrites occurrences of its word even inside the frozen / coding region, so
+            # only the final check stands between the breach and the caller
+            from .problems import kw
+            seq = p["seq"]
+            n = len(seq)
+            word = rng.choice(["AA", "AC", "GG", "TAT", "CG"])
+            a = rng.randint(0, n - len(word))
+            seq = seq[:a] + word + seq[a + len(word):]
+            lo, hi = max(0, a - rng.randint(0, 3)), min(n, a + len(word) + rng.randint(0, 3))
+            hard = rng.choice([("AvoidChanges", kw(location=(lo, hi, 0))),
+                               ("AvoidChanges", kw(indices=tuple(range(lo, hi)))),
+                               ("EnforceTranslation", kw(location=(0, n // 3 * 3, 1))),
+                               ("EnforceSequence", kw(sequence=seq[lo:hi], location=(lo, hi, 1)))])
+            p = dict(p, seq=seq, constraints=(hard, ("OverwritingHeuristic", kw(word=word, location=None))))
         cases.append(("run", json.dumps(p, sort_keys=True), ENTRY))
     return cases, {}
+
+
+def neighbours(case, rng):
+    return problems.neighbours(case, rng)
 
 
 def nontrivial(case, out):
